@@ -3,6 +3,7 @@ package vsot
 import (
 	"github.com/bronlabs/bron-crypto/pkg/base/algebra"
 	"github.com/bronlabs/bron-crypto/pkg/base/curves"
+	"github.com/bronlabs/bron-crypto/pkg/base/utils"
 	"github.com/bronlabs/bron-crypto/pkg/mpc/sharing"
 	"github.com/bronlabs/bron-crypto/pkg/ot"
 	"github.com/bronlabs/bron-crypto/pkg/proofs/sigma/compiler"
@@ -16,7 +17,7 @@ type Round1P2P[P curves.Point[P, B, S], B algebra.FieldElement[B], S algebra.Pri
 
 // Validate performs basic sanity checks on the message.
 func (r1 *Round1P2P[P, B, S]) Validate(receiver *Receiver[P, B, S], _ sharing.ID) error {
-	if r1 == nil || r1.BigB.IsOpIdentity() || !r1.BigB.IsTorsionFree() || len(r1.Proof) == 0 {
+	if r1 == nil || utils.IsNil(r1.BigB) || r1.BigB.IsOpIdentity() || !r1.BigB.IsTorsionFree() || len(r1.Proof) == 0 {
 		return ot.ErrValidation.WithMessage("invalid message")
 	}
 
@@ -35,7 +36,7 @@ func (r2 *Round2P2P[P, B, S]) Validate(sender *Sender[P, B, S], _ sharing.ID) er
 		return ot.ErrValidation.WithMessage("invalid message")
 	}
 	for _, a := range r2.BigA {
-		if a.IsOpIdentity() || !a.IsTorsionFree() {
+		if utils.IsNil(a) || a.IsOpIdentity() || !a.IsTorsionFree() {
 			return ot.ErrValidation.WithMessage("invalid message")
 		}
 	}
